@@ -6,3 +6,10 @@ pub assume_specification<T> [<[T]>::to_vec] (s: &[T]) -> (r: std::vec::Vec<T>)
 // R7: Vec<u8> == Vec<u8> is element-wise equality
 #[verifier::external_body]
 pub fn verif_vec_eq(a: &Vec<u8>, b: &Vec<u8>) -> (r: bool) ensures r == (a@ == b@) { unimplemented!() }
+pub struct FromUtf8Error { pub x: u8 }
+// String::from_utf8: only used as a printable-text test; its result is unconstrained here
+#[verifier::external_body]
+pub fn verif_string_from_utf8(v: Vec<u8>) -> Result<String, FromUtf8Error> { unimplemented!() }
+// R7: `a != &[k]` between &Vec<u8> and a one-byte array literal
+#[verifier::external_body]
+pub fn verif_vec_is_single(a: &Vec<u8>, k: u8) -> (r: bool) ensures r == (a@.len() == 1 && a@[0] == k) { unimplemented!() }
